@@ -55,9 +55,22 @@ GroupCases ==
     named |-> "h", strict |-> TRUE, pragmas |-> <<"h", "custom", "hh", "F">>, items |-> ModuleFor(p, g)] :
      g \in Groups, p \in {"head", "before_second", "before_export_default"}, op \in {"", "hh"}}
 
+(* a pragma changes the factory only: whatever else the module needs (the transformOn helper, directives, text nodes) *)
+(* is still imported - also when nothing but the factory would have come from 'vue'                                  *)
+H1 == Ident("h1", FALSE, Fn("h1"))
+E4 == Elem(TagHtml("div"), <<Plain("on", AvExpr(ObjLit(<< <<"click", H1>> >>)))>>, <<>>)
+E5 == Elem(TagHtml("div"), <<Plain("id", AvStr(<<"a">>)), Plain("on", AvExpr(ObjLit(<< <<"click", H1>> >>)))>>, <<>>)
+E6 == Elem(TagHtml("div"), <<Dir("kebab", <<"show">>, "", <<>>, AvExpr(Ident("sv", FALSE, Bool(TRUE))))>>, <<>>)
+HelperCases ==
+  {[case |-> "C15-h", prop |-> "C15", opts |-> [DefaultOpts EXCEPT !.pragma = op, !.transformOn = TRUE, !.mergeProps = mp],
+    place |-> "head", style |-> "block", text |-> cm, named |-> IF cm = "" THEN "" ELSE "h", strict |-> TRUE,
+    pragmas |-> <<"h", "custom", "hh", "F">>,
+    items |-> (IF cm = "" THEN <<>> ELSE <<Cm(cm)>>) \o <<Item("s1", "module", e)>>] :
+     e \in {E4, E5, E6}, op \in {"", "hh"}, cm \in {"", "/* @jsx h */"}, mp \in BOOLEAN}
+
 CaseSeq ==
   LET raw == SetToSeq(Raw)
-      grp == SetToSeq(GroupCases) IN
+      grp == SetToSeq(GroupCases \cup HelperCases) IN
   [j \in 1..Len(grp) |-> [grp[j] EXCEPT !.case = "C15-g" \o ToString(j)]] \o
   [i \in 1..Len(raw) |->
      LET r == raw[i]
